@@ -1,0 +1,16 @@
+//go:build verif
+
+package syncutil
+
+// VerifGate, when not nil, is called at the named points of
+// [OnceConstructor.Get].  It is only compiled in with the verif build tag and
+// is used by the external model-conformance harness to park goroutines between
+// the atomic steps of Get.
+var VerifGate func(point string)
+
+// verifGate calls [VerifGate] if it is set.
+func verifGate(point string) {
+	if f := VerifGate; f != nil {
+		f(point)
+	}
+}
